@@ -33,7 +33,7 @@ STATE_MEASURE = "distinct (graph shape class, root format, fault kind, call site
 PROBES = ["cycle_in_graph", "self_reference", "mapped_edge_followed", "nonmatching_edge_present", "remote_edge_from_remote_root",
           "file_edge_under_remote_root", "checker_ran_as_thread", "checker_never_ran", "scheduler_switched", "line_preemption",
           "host_down_during_listing", "host_healed_then_offered", "origin_deleted", "dcor_root", "s3_root", "http_root",
-          "value_from_depth_2", "keyerror_for_unavailable", "missing_identifier", "remote_typed_local_path"]
+          "value_from_depth_2", "keyerror_for_unavailable", "missing_identifier", "remote_typed_local_path", "flaky_host", "path_component_too_long"]
 COMPONENTS = {
     "real": ["dclab core basins machinery (basins_retrieve, features_basin, _get_basin_feature_data, identifier verification, cycle cut)",
              "feat_basin.Basin/BasinProxy, HDF5Basin, HTTPBasin, S3Basin, DCORBasin, RTDC_HTTP/RTDC_S3/RTDC_DCOR/APIHandler, HTTPFile",
@@ -109,7 +109,7 @@ def make_trace(seed, tier, idx=None):
         kind = "file" if local_only else r.choice(["file", "file", "http", "http", "s3", "dcor", "remote_hdf5"])
         e = {"src": a, "dst": b, "kind": kind, "name": f"e{ei}",
              "map": r.choice([None, None, None, "subset", "perm", "repeat"]), "mseed": r.randrange(1 << 20),
-             "feats": r.choice([None, None, "all_dst", "some"]), "loc": r.choice(["abs", "abs", "rel", "dangling"]) if kind == "file" else "url",
+             "feats": r.choice([None, None, "all_dst", "some"]), "loc": r.choice(["abs", "abs", "rel", "dangling", "toolong"]) if kind == "file" else "url",
              "host": r.randrange(2)}
         if e["feats"] == "some":
             e["feats"] = sorted(r.sample(FEATS, r.randint(1, 3)))
@@ -209,7 +209,8 @@ class World:
                         loc = str(self.path(e["dst"]))
                         btype, bfmt = "remote", "hdf5"
                     elif e["kind"] == "file":
-                        loc = {"abs": str(self.path(e["dst"])), "rel": f"n{e['dst']}.rtdc", "dangling": f"/nonexistent-c14/n{e['dst']}.rtdc"}[e["loc"]]
+                        loc = {"abs": str(self.path(e["dst"])), "rel": f"n{e['dst']}.rtdc", "dangling": f"/nonexistent-c14/n{e['dst']}.rtdc",
+                               "toolong": "/" + "x" * 300 + f"/n{e['dst']}.rtdc"}[e["loc"]]
                         btype, bfmt = "file", "hdf5"
                     else:
                         loc = self.url(e["kind"], e["dst"], e.get("host", 0))
@@ -262,7 +263,7 @@ class World:
         for e in self.edges:
             if e["src"] != node:
                 continue
-            if e["kind"] == "file" and (fmt != "hdf5" or e["loc"] == "dangling"):
+            if e["kind"] == "file" and (fmt != "hdf5" or e["loc"] in ("dangling", "toolong")):
                 continue
             if e["kind"] == "remote_hdf5" and (fmt != "hdf5" or strict):
                 # a malformed definition (type and format disagree): may be ignored altogether; following it as a
@@ -285,7 +286,7 @@ class World:
         if depth >= 7:
             return out
         for e in self.edges:
-            if e["src"] != node or e["kind"] != "file" or fmt != "hdf5" or e["loc"] == "dangling":
+            if e["src"] != node or e["kind"] != "file" or fmt != "hdf5" or e["loc"] in ("dangling", "toolong"):
                 continue
             m = self.edge_map(e)
             if not self.rid_ok(self.nodes[node]["rid"], self.nodes[e["dst"]]["rid"], m is not None):
@@ -329,7 +330,7 @@ class World:
         if self.k["klass"] == "weather" and x < 0.22:
             y = r.random()
             if y < 0.6:
-                return {"k": "weather", "host": r.randrange(4), "state": r.choice(["refuse", "dnsfail", "down", "up", "up", "403", "404"]), "node": r.randrange(6)}
+                return {"k": "weather", "host": r.randrange(4), "state": r.choice(["refuse", "dnsfail", "down", "up", "up", "403", "404", "flaky", "flaky"]), "node": r.randrange(6)}
             return {"k": "delete", "node": r.randrange(1, 6)}
         if x < 0.32:
             return {"k": "listing", "what": r.choice(["features_basin", "features", "features_innate"])}
@@ -382,7 +383,7 @@ class World:
         hosts = {"http": ["h0.sim.test"], "s3": ["s3.sim.test"], "dcor": ["dcor.sim.test", "h0.sim.test"]}.get(self.ds_fmt or self.k["root_fmt"], [])
         root = self.k["root"] % len(self.nodes)
         for h in hosts:
-            if self.net.host_state(h) != "up":
+            if self.net.host_state(h, peek=True) != "up":
                 return True
             st = self.net.hosts[h].status
             if f"/n{root}.rtdc" in st or f"/bucket/n{root}.rtdc" in st:
@@ -432,6 +433,8 @@ class World:
                 ctx.probe("nonmatching_edge_present")
             if e["kind"] == "remote_hdf5":
                 ctx.probe("remote_typed_local_path")
+            if e.get("loc") == "toolong":
+                ctx.probe("path_component_too_long")
             if e["src"] == root and fmt != "hdf5":
                 ctx.probe("file_edge_under_remote_root" if e["kind"] == "file" else "remote_edge_from_remote_root")
         ctx.state_ops += 1
@@ -464,7 +467,7 @@ class World:
         ctx.checked()
         if not ok:
             return
-        if any(self.net.host_state(h) != "up" for h in self.hosts):
+        if any(self.net.host_state(h, peek=True) != "up" for h in self.hosts):
             ctx.probe("host_down_during_listing")
         self.judge_listing(set(res) & set(FEATS), op["what"])
         ctx.state(self.graph_class(), self.ds_fmt, "faulted" if self.faulted else "clean", "listing")
@@ -582,6 +585,8 @@ class World:
                 self.ctx.fault("host_" + st)
         if st != "up":
             self.faulted = True
+        if st == "flaky":
+            self.ctx.probe("flaky_host")
         self.ctx.log("env", f"weather {h} {st}")
 
     def do_delete(self, op):
